@@ -1188,7 +1188,7 @@ class OMCOOSubjac(COOSubjac):
 
         val = self.info['val'] if randgen is None else self.get_rand_val(randgen)
         # bincount allows rows and cols to contain repeated (row, col) pairs.
-        self._res_view += bincount(self.rows, self._in_view[self.cols] * val, minlength=self.nrows)
+        self._res_view += _bincount(self.rows, self._in_view[self.cols] * val, self.nrows)
 
     def _apply_fwd_output(self, d_inputs, d_outputs, d_residuals, randgen=None):
         if self._out_view is None:
@@ -1197,7 +1197,7 @@ class OMCOOSubjac(COOSubjac):
 
         val = self.info['val'] if randgen is None else self.get_rand_val(randgen)
         # bincount allows rows and cols to contain repeated (row, col) pairs.
-        self._res_view += bincount(self.rows, self._out_view[self.cols] * val, minlength=self.nrows)
+        self._res_view += _bincount(self.rows, self._out_view[self.cols] * val, self.nrows)
 
     def _apply_rev_input(self, d_inputs, d_outputs, d_residuals, randgen=None):
         if self._in_view is None:
@@ -1205,8 +1205,7 @@ class OMCOOSubjac(COOSubjac):
             self._res_view = d_residuals.get_slice(self.row_slice)
 
         val = self.info['val'] if randgen is None else self.get_rand_val(randgen)
-        self._in_view += bincount(self.cols, self._res_view[self.rows] * val,
-                                  minlength=self.parent_ncols)
+        self._in_view += _bincount(self.cols, self._res_view[self.rows] * val, self.parent_ncols)
 
     def _apply_rev_output(self, d_inputs, d_outputs, d_residuals, randgen=None):
         if self._out_view is None:
@@ -1214,8 +1213,7 @@ class OMCOOSubjac(COOSubjac):
             self._res_view = d_residuals.get_slice(self.row_slice)
 
         val = self.info['val'] if randgen is None else self.get_rand_val(randgen)
-        self._out_view += bincount(self.cols, self._res_view[self.rows] * val,
-                                   minlength=self.parent_ncols)
+        self._out_view += _bincount(self.cols, self._res_view[self.rows] * val, self.parent_ncols)
 
 
 class DiagonalSubjac(SparseSubjac):
@@ -1506,6 +1504,31 @@ SUBJAC_META_DEFAULTS = {
     'diagonal': False,
     'sparsity': None,
 }
+
+
+def _bincount(inds, weights, minlength):
+    """
+    Sum weights per index like numpy.bincount, also for complex weights.
+
+    Parameters
+    ----------
+    inds : ndarray of int
+        Index of the bin each weight is added to.
+    weights : ndarray
+        Real or complex weights.
+    minlength : int
+        Minimum size of the result.
+
+    Returns
+    -------
+    ndarray
+        Sum of the weights per index.
+    """
+    if np.iscomplexobj(weights):
+        return bincount(inds, weights.real, minlength=minlength) + \
+            1j * bincount(inds, weights.imag, minlength=minlength)
+    return bincount(inds, weights, minlength=minlength)
+
 
 _sparse_subjac_types = {
     'coo': COOSubjac,
